@@ -14,9 +14,9 @@ import (
 // is answered with its bytes and one terminator; FIN is echoed; Send succeeds.
 func VH_C06_eager() {
 	maxb := v.Param("MAXB", 1)
-	view := symView(maxb)
+	view := vh_symView(maxb)
 	ctx := context.Background()
-	snd, rcv := newStreamPair(ctx, 256)
+	snd, rcv := vh_newStreamPair(ctx, 256)
 	snd.latency = true
 	var sendErr error
 	done := make(chan struct{})
